@@ -320,7 +320,8 @@ def primary(features):
 
 def expected_set(prog, plan, defects=None, ti_flags=None):
     """All outcomes the reference allows for one run: list of result dicts, or a string
-    ("unjudged:<why>" / "stall")."""
+    ("unjudged:<why>" / "stall").  With a defect model (used only to name a failure) readings
+    that end unjudged are skipped instead of making the whole run unjudged."""
     seen = {}
     todo = [frozenset()]
     results = []
@@ -334,16 +335,27 @@ def expected_set(prog, plan, defects=None, ti_flags=None):
         try:
             r = m.run()
         except M.Unjudged as e:
+            if defects:
+                seen[on] = None
+                if on:
+                    continue
+                # the default reading is unjudged: still try the other reading of each flag
+                for f in M.FLAGS:
+                    if frozenset({f}) not in seen and len(seen) + len(todo) < 16:
+                        todo.append(frozenset({f}))
+                continue
             return "unjudged:" + str(e)
         except M.StallRef:
             return "stall"
         seen[on] = r
         results.append(r)
-        for f in r["consulted"]:
+        for f in sorted(r["consulted"]):
             for alt in (on | {f}, on - {f}):
                 alt = frozenset(alt)
                 if alt not in seen and alt not in todo and len(seen) + len(todo) < 16:
                     todo.append(alt)
+    if defects and not results:
+        return "unjudged:every reading of the defect model"
     return results
 
 
